@@ -102,6 +102,10 @@ type Engine struct {
 	crcExactMode bool
 	curIns      ssa.Instruction
 	maxLoop     int
+	divDefs     map[[3]uint64][2]*Term
+	defOf       map[*Term]*Term
+	sparseAlloc bool
+	civil       map[*Term]civil
 	mctx        *mergeCtx
 	mergeFailLog func(string)
 }
@@ -431,6 +435,7 @@ func (e *Engine) checkSat(pc []*Term, extra *Term, want []*Term) (Result, []uint
 	if !e.opts.Deadline.IsZero() && time.Now().After(e.opts.Deadline) {
 		e.abort("deadline exceeded")
 	}
+	as = e.withDefs(as)
 	if e.solver.dead {
 		e.solver.Close()
 		s, err := NewSolver("z3-new", e.tt, e.opts.TimeoutMs)
@@ -440,37 +445,31 @@ func (e *Engine) checkSat(pc []*Term, extra *Term, want []*Term) (Result, []uint
 		s.Queries, s.TimeSpent = e.solver.Queries, e.solver.TimeSpent
 		e.solver = s
 	}
-	// primary: z3 5.1.0
+	// primary: persistent z3 5.1.0 with a short timeout (cheap queries)
+	quick := 3000
+	if quick > e.opts.TimeoutMs {
+		quick = e.opts.TimeoutMs
+	}
+	e.solver.SetTimeout(quick)
 	r, vals, msg := e.solver.Check(as, want)
 	name := "z3-5.1.0"
 	if r == Unknown {
-		// second attempt: z3 4.8.12 (hard-killed if it does not honour the timeout)
-		if e.solver2 == nil || e.solver2.dead {
-			if e.solver2 != nil {
-				e.solver2.Close()
+		// hard query: fresh non-incremental processes (z3's bit-blasting tactic), then other solvers
+		t0 := time.Now()
+		for _, k := range []string{"z3-new", "z3", "cvc5"} {
+			to := e.opts.TimeoutMs
+			if k != "z3-new" && to > 30000 {
+				to = 30000
 			}
-			s2, err := NewSolver("z3", e.tt, e.opts.TimeoutMs)
-			if err == nil {
-				e.solver2 = s2
-			}
-		}
-		if e.solver2 != nil {
-			r2, v2, m2 := e.solver2.Check(as, want)
+			r2, v2, m2 := OneShot(k, e.tt, as, want, to)
+			e.solver.Queries++
 			if r2 != Unknown {
-				return r2, v2, m2, "z3-4.8.12"
+				e.solver.TimeSpent += time.Since(t0)
+				return r2, v2, m2, map[string]string{"z3-new": "z3-5.1.0(one-shot)", "z3": "z3-4.8.12(one-shot)", "cvc5": "cvc5-1.0(one-shot)"}[k]
 			}
-			msg += "; z3-4.8.12: " + m2
+			msg += "; " + k + " one-shot: " + m2
 		}
-		// last resort: cvc5, one-shot
-		s3, err := NewSolver("cvc5", e.tt, e.opts.TimeoutMs)
-		if err == nil {
-			r3, v3, m3 := s3.Check(as, want)
-			s3.Close()
-			if r3 != Unknown {
-				return r3, v3, m3, "cvc5-1.0"
-			}
-			msg += "; cvc5: " + m3
-		}
+		e.solver.TimeSpent += time.Since(t0)
 	}
 	return r, vals, msg, name
 }
